@@ -173,6 +173,14 @@ def runObsOK (canon : Addr → Addr) (m : MsgRun) (pre post postFailed : Store R
 def leaversOK (canon : Addr → Addr) (pre post postFailed : Store Rec) (deltas : List (Addr × Coins)) (ds : List Denom) : Bool :=
   accountsOK canon pre post postFailed deltas ds
 
+/-- One create message as observed (`outs` = the coins of the outputs of THIS message; `distDec` =
+    decrease of the distributor's balances, `modInc` = increase of the module account's): an
+    accepted message moves exactly the sum of its outputs, a refused one moves nothing. -/
+def createObsOK (ok : Bool) (outs : List Coins) (distDec modInc : Coins) (ds : List Denom) : Bool :=
+  ds.all fun d =>
+    let want := if ok then (outs.map fun c => coinsGet c d).sum else 0
+    coinsGet distDec d == want && coinsGet modInc d == want
+
 /-- keys of a store are pairwise different (a user holds at most one claim per type: the claim
     store has one entry per (user, type) key) -/
 def keysNodup {α} (st : Store α) : Bool := decide (st.map (·.1)).Nodup
